@@ -248,6 +248,46 @@ def _observe_attach(m1, m2, by_geo):
                           reread=[p.idx for p in lumped2[k].pulses] if k < len(lumped2) else None))
     return dict(tags=tags, counts=counts, layout_ok=layout_ok, by_geo=by_geo, loads=loads)
 
+def _obj_lines(argv):
+    """object options of an argument list in order: (kind, tag or None, fields after the tag)"""
+    out = []; i = 0
+    names = {'-a': 0, '--arc': 0, '-H': 1, '--helix': 1, '-w': 2, '--wire': 2}
+    while i < len(argv):
+        a = argv[i]; val = None
+        if '=' in a and a.split('=')[0] in names: k = names[a.split('=')[0]]; val = a.split('=', 1)[1]
+        elif a in names and i + 1 < len(argv): k = names[a]; val = argv[i + 1]; i += 1
+        if val is not None:
+            f = [x.strip() for x in val.split(',')]
+            ntag = {0: 6, 2: 9}.get(k)
+            tagged = (len(f) in (7, 9)) if k == 1 else (len(f) == ntag)
+            out.append((k, int(f[0]) if tagged else None, [float(x) for x in (f[1:] if tagged else f)]))
+        i += 1
+    return out
+
+def _observe_objects(argv, m1, t1):
+    lines = _obj_lines(argv)
+    # body = position of the option among the object options
+    given = [[k, (-1 if t is None else t), i] for i, (k, t, f) in enumerate(lines)]
+    kinds = {'Arc': 0, 'Helix': 1, 'Wire': 2}
+    used = set(); model = []
+    for g in m1.geo:
+        k = kinds[type(g).__name__]
+        # which option does this object come from: same kind, same (given or assigned) tag situation, same numbers
+        cand = [i for i, (kk, t, f) in enumerate(lines) if kk == k and i not in used and ((t == g.tag) if g.had_tag else (t is None)) and int(f[0]) == g.n_segments]
+        if len(cand) > 1:
+            ref = list(map(float, (g.endp_unscaled.flat if k == 2 else [])))
+            c2 = [i for i in cand if k != 2 or np.allclose(lines[i][2][1:7], ref)]
+            cand = c2 or cand
+        if not cand: return None
+        used.add(cand[0]); model.append([k, int(g.tag), 1 if g.had_tag else 0, cand[0]])
+    written = []
+    wl = _obj_lines(t1.split())
+    # the written options in order, mapped to the same bodies through the model order
+    if len(wl) != len(model): return None
+    for (k, t, f), mo in zip(wl, model):
+        written.append([k, (-1 if t is None else t), mo[3]])
+    return dict(given=given, model=model, written=written)
+
 def c15(payload):
     from mininec.mininec import main
     out = []
@@ -297,6 +337,7 @@ def c15(payload):
             r['bad'] = bad; r['written'] = argv2
             if not isinstance(m2, int):
                 r['obs'] = _observe_attach(m1, m2, by_geo)
+                r['objs'] = _observe_objects(argv, m1, t1)
             r['features'] = dict(nobj=len(m1.geo), nloads=len(m1.loads), media=len(m1.media or []), by_geo=by_geo)
         except Exception as e:
             r['error'] = exc_info(e)
